@@ -21,6 +21,9 @@ FAILING = [
     "{ RdV = clz32(RsV) + c14_unknown(RtV); }", "{ if (RsV) { mem_store_u32(RsV, RtN); P0 = 1; JUMP(RsV); } c14_unknown(RsV); }",
     "{ int32_t k0 = RsV; k0++; RdV = c14_unknown(k0); }", "{ switch (RsV) { case 1: RdV = 1; } }",
     "{ RdV = ({ int32_t q = RsV; q; }) + c14_unknown(RtV); }",
+    # failures whose very first leaf already set an attribute flag
+    "{ JUMP(c14_undefined_label); }", "{ mem_load_u8(c14_undefined_address); }", "{ G1_NEW = RsV; }", "{ P0 = c14_unknown(RsV); }",
+    "{ if (c14_undefined) { RdV = 1; } }", "{ mem_store_u32(c14_undefined_address, RsV); }", "{ RdV = PuN + c14_unknown(1); }",
 ]
 
 FIXED_SUBJECTS = [
@@ -28,6 +31,10 @@ FIXED_SUBJECTS = [
     "{ P0 = RsV; if (P0_NEW & 1) { JUMP(riV); } }", "{ int32_t a = RsV; a++; RdV = a; }",
     "{ RdV = ({ int32_t t = RsV; t; }) ? 1 : 2; }", "{ mem_store_u32(RsV, RtV); RdV = (int32_t)mem_load_s32(RsV); }",
     "{ RddV = RssN; HEX_REG_ALIAS_SP = HEX_REG_ALIAS_SP - 8; }", "{ RdV = fbrev(RsV); }", "{ PdV = (PsV & PtV); }",
+    # value-producing operations whose value has the type object of an immediate / a literal / a register
+    "{ RdV = ({ int32_t t = RsV; uiV + t; }); }", "{ RdV = ({ int32_t t = RsV; RtV ? riV : 0; }); }", "{ RdV = ({ int32_t t = RsV; siV; }); }",
+    "{ RdV = siV + uiV; ReV = riV; }", "{ RdV = ({ int32_t t = RsV; 1 + t; }); }", "{ RdV = -1; ReV = 1 + RsV; }",
+    "{ RdV = ({ ReV = 1; RsV; }); }", "{ RdV = ({ ReV = 1; extract32(RsV, 0, 4); }); }", "{ RdV = extract32(RtV, 1, 3) + clz32(RsV); }",
 ]
 
 INSNS = ["A2_add", "A2_sub", "J2_jump", "J2_jumpt", "L2_loadri_io", "S2_storeri_io", "C2_cmpeq", "A2_tfrsi", "J4_cmpeqi_tp0_jump_t",
